@@ -206,6 +206,38 @@ class Scanner:
                 if g is not None and s.take_like(g): out.append(c)
         return out
 
+    def restore_like(s, fn, depth=0):
+        """every path entry -> ret of fn passes a restore (directly or through a restore-like callee) and fn takes nothing:
+        an extracted helper that puts the hold character back"""
+        key = ('R', fn.name)
+        if key in s._takelike: return s._takelike[key]
+        s._takelike[key] = False
+        if depth > 3 or not fn.blocks: return False
+        a = s.fa(fn)
+        r = False
+        if not a.takes():
+            rs = list(a.restores())
+            for c in fn.ins:
+                if c.op in ('call', 'invoke') and isinstance(c.callee, str) and c.callee != fn.name:
+                    g = s.mod.functions.get(c.callee)
+                    if g is not None and s.restore_like(g, depth + 1): rs.append(c)
+            if rs:
+                cfg = s.prog.cfg(fn)
+                rr = cfg.reach(fn.entry.ins[0], avoid=rs, include_start=True)
+                r = not any(x.op == 'ret' for x in rr)
+        s._takelike[key] = r
+        return r
+
+    def restore_sites(s, fn):
+        """restore instructions of fn: the store shape and calls to restore-like callees"""
+        a = s.fa(fn)
+        out = list(a.restores())
+        for c in fn.ins:
+            if c.op in ('call', 'invoke') and isinstance(c.callee, str) and c.callee != fn.name:
+                g = s.mod.functions.get(c.callee)
+                if g is not None and s.restore_like(g): out.append(c)
+        return out
+
     def calls(s, fn, *roles):
         return [c for c in fn.ins if c.op in ('call', 'invoke') and fn_role(c.callee) in roles]
 
